@@ -600,7 +600,7 @@ def _quant(I, a, isall):
     st.push(rng)
     old_branch = st.branch
 
-    def nb(cond):
+    def nb(cond, exact=False):
         c = z3.simplify(cond)
         if z3.is_true(c):
             return True
